@@ -28,7 +28,7 @@ deriving Repr, DecidableEq, Inhabited
 def checkField (fs : List FieldDecl) : FieldArg → Except FieldErr FieldDecl
   | .other => .error .notString
   | .str s =>
-    match fs.find? (fun f => f.name == s) with
+    match fs.find? (fun f => f.name == s && s != "_") with
     | none => .error (.notField s)
     | some f => if f.prevented then .error (.prevented s) else .ok f
 
@@ -37,7 +37,7 @@ def allFields (args : List FieldArg) : Bool := args == [.str "*"]
 
 /-- the `Args` of the struct provider (type, field name), before the duplicate-type test -/
 def structArgs (fs : List FieldDecl) (args : List FieldArg) : Except FieldErr (List FieldDecl) :=
-  if allFields args then .ok (fs.filter (fun f => !f.prevented))
+  if allFields args then .ok (fs.filter (fun f => !f.prevented && f.name != "_"))
   else args.mapM (checkField fs)
 
 /-- `processStructProvider` after the first argument has been recognised -/
